@@ -204,3 +204,117 @@ def replay_nr_step(bname, model, meta):
 
 def replay_run(bname, model, meta):
     return None
+
+
+def nr_step_point(pid):
+    """PFlow.nr_step: the Jacobian handed to the linear solver belongs to the same evaluation point as the residual it is solved
+    against -- either it was assembled in this step AFTER the models were updated (fg_update flips discrete flags such as the
+    PV -> PQ conversion and re-evaluates the services), or it is the matrix kept from an earlier step (dishonest method).
+    Ghost fields: ``self.ghost_state_epoch`` counts the updates of the models' evaluation state, ``self.ghost_jac_epoch`` is the
+    epoch the assembled Jacobian blocks belong to."""
+    from pyvc.symex import to_z3
+    sch = dict(schema())
+    sch.update({'self.ghost_state_epoch': TInt(), 'self.ghost_jac_epoch': TInt()})
+    base_fg = spec(modifies=['loc:self.system.dae.f', 'loc:self.system.dae.g'], name='PFlow.fg_update')
+    base_j = spec(modifies=['self.system.dae.fx', 'self.system.dae.fy', 'self.system.dae.gx', 'self.system.dae.gy'], name='System.j_update')
+
+    def fg(ex, st, args, kw, node):
+        r = base_fg(ex, st, args, kw, node)
+        st.store('self.ghost_state_epoch', to_z3(st.load('self.ghost_state_epoch')) + 1)
+        return r
+
+    def ju(ex, st, args, kw, node):
+        r = base_j(ex, st, args, kw, node)
+        st.store('self.ghost_jac_epoch', to_z3(st.load('self.ghost_state_epoch')))
+        return r
+
+    def solve_with(name):
+        base = spec(returns=TArr(nan=True), name=name)
+
+        def h(ex, st, args, kw, node):
+            e, j = to_z3(st.load('self.ghost_state_epoch')), to_z3(st.load('self.ghost_jac_epoch'))
+            ex.oblige(st, 'pre@call:%s:jacobian-assembled-at-the-point-of-the-residual(after-the-model-update)-or-kept-from-an-earlier-step' % name,
+                      z3.Or(j == e, j == st.ghost['j0']), {})
+            ex.oblige(st, 'pre@call:%s:residual-evaluated-in-this-step' % name, e == st.ghost['e0'] + 1, {})
+            return base(ex, st, args, kw, node)
+        return h
+
+    def pre_state(st):
+        st.ghost['e0'] = to_z3(st.load('self.ghost_state_epoch'))
+        st.ghost['j0'] = to_z3(st.load('self.ghost_jac_epoch'))
+    c = Contract(
+        F, 'PFlow.nr_step', pid=pid, params={'self': TObj()}, schema=sch,
+        requires=[('sizes', lambda v: z3.And(v.z('self.system.dae.n') >= 0, v.z('self.system.dae.m') > 0)),
+                  ('ghost:the-kept-jacobian-is-older-than-the-current-state', lambda v: v.z('self.ghost_jac_epoch') < v.z('self.ghost_state_epoch'))],
+        calls={'self.fg_update': fg, 'self.system.j_update': ju,
+               'sparse': spec(returns=Mat, name='kvxopt.sparse'),
+               'self.solver.solve': solve_with('Solver.solve'), 'self.solver.linsolve': solve_with('Solver.linsolve'),
+               'self.system.vars_to_models': spec(name='System.vars_to_models')},
+        globals_={'sparse': __import__('pyvc.symval', fromlist=['Func']).Func('sparse')},
+        ensures=[('new-jacobian-flag-set-iff-rebuilt', lambda old, new, res: z3.Implies(
+            new.z('self.ghost_jac_epoch') != old.z('self.ghost_jac_epoch'), new.z('self.solver.worker.new_A')))],
+        modifies=NR_STEP_FRAME + ['self.system.dae.x', 'self.system.dae.y', 'self.system.dae.f', 'self.system.dae.g',
+                                  'self.ghost_state_epoch', 'self.ghost_jac_epoch'],
+    )
+    c.tag = 'evaluation-point'
+    c.pre_state = pre_state
+    return c
+
+
+def replay_nr_step_point(obligation=None, model=None, meta=None):
+    """native: the real nr_step on ieee14_full with PV.pv2pq=1 (discrete flags flip during the iterations) and on kundur_full; at
+    the moment the linear system is solved the matrix must equal the Jacobian assembled afresh at that very state, and within a
+    step the Jacobian is never assembled before the models are updated"""
+    import logging
+    import numpy as np
+    import andes
+    from kvxopt import matrix, sparse
+    logging.getLogger('andes').setLevel(logging.CRITICAL)
+    n = 0
+    for case, opts in (('ieee14/ieee14_full.xlsx', ['PV.pv2pq=1']), ('ieee14/ieee14_full.xlsx', ['PV.pv2pq=1', 'PFlow.method=dishonest']),
+                       ('kundur/kundur_full.xlsx', None)):
+        ss = andes.load(andes.get_case(case), default_config=True, no_output=True, config_option=opts, setup=True)
+        pf = ss.PFlow
+        pf.init()
+        order = []
+        real_fg, real_j, real_solve = pf.fg_update, ss.j_update, pf.solver.solve
+        found = {}
+
+        def fg(*a, **k):
+            order.append('fg_update')
+            return real_fg(*a, **k)
+
+        def ju(*a, **k):
+            order.append('j_update')
+            return real_j(*a, **k)
+
+        def solve(A, b):
+            if 'j_update' in order:
+                real_j(pf.models)
+                A2 = sparse([[ss.dae.fx, ss.dae.gx], [ss.dae.fy, ss.dae.gy]])
+                d = np.abs(np.array(matrix(A2 - A))).max() if len(A2 - A) else 0.0
+                if d > 1e-9 and not found:
+                    found.update(kind='matrix', diff=float(d))
+            return real_solve(A, b)
+        pf.fg_update, ss.j_update, pf.solver.solve = fg, ju, solve
+        try:
+            for it in range(12):
+                del order[:]
+                pf.niter = it
+                mis = pf.nr_step()
+                n += 1
+                if 'j_update' in order and 'fg_update' in order and order.index('j_update') < order.index('fg_update') and not found:
+                    found.update(kind='order', order=list(order))
+                if found:
+                    return {'confirmed': True, 'inputs': {'case': case, 'config_option': opts, 'iteration': it},
+                            'observed': ('within one step the calls came as %r: the Jacobian was assembled before the models were updated' % found['order'])
+                            if found['kind'] == 'order' else
+                            'the matrix solved with differs by %.3g from the Jacobian assembled at the state the residual was evaluated at' % found['diff'],
+                            'native_cmd': 'PFlow.nr_step() with PFlow.fg_update / System.j_update / solver.solve wrapped'}
+                if mis < 1e-8:
+                    break
+        finally:
+            pf.fg_update, ss.j_update, pf.solver.solve = real_fg, real_j, real_solve
+    return {'confirmed': False, 'tried': n}
+
+replay_nr_step_point.real_system = True
